@@ -1,17 +1,7 @@
-import Cutadapt.Spec.Edit
+import Cutadapt.Spec.Chunks
+/-! Pigeonhole argument for edit scripts (C07): more chunks than errors ⇒ one chunk is copied without error. -/
 namespace Cutadapt.Spec
 open Cutadapt
-
-/-- word `w` occurs in `t` at offset `i` under the relation `m` (first argument: character of the word) -/
-def OccursAt (m : Sym → Sym → Bool) (w t : List Sym) (i : Nat) : Prop :=
-  i + w.length ≤ t.length ∧ ∀ j, j < w.length → ∃ a c, w[j]? = some a ∧ t[i + j]? = some c ∧ m a c = true
-
-def Op.isIndel : Op → Bool
-  | .sub _ _ => false
-  | _ => true
-
-/-- number of insertions and deletions of a script -/
-def indels (s : List Op) : Nat := (s.filter Op.isIndel).length
 
 theorem indels_append (s t : List Op) : indels (s ++ t) = indels s + indels t := by simp [indels]
 
